@@ -150,7 +150,7 @@ def norm_agreement(ctx):
                     rep.bad("C27.R6", C, w, f"`{norm_src(w)[:60]}` divides by `{shown[:60]}`, not by the plain norm of the slip argument that the other method uses: residual and Jacobian no "
                             "longer belong to the same map (for |rho x - y| below the clamp the direction is not a unit vector and the factor 1/|arg| becomes 1/eps)", f"{PX}:{w.lineno}")
         if n_ == 0:
-            raise AnalysisError(f"{C}: no division by the norm of the slip argument found")
+            rep.note(f"C27.R6: {C}: no division by a norm in this method (it delegates the normalisation); nothing to compare")
 
 
 def estimate_dtype(ctx):
